@@ -689,16 +689,18 @@ theorem onePass_bal (st : St ρ) ts outs bb rem (ho : Pieces outs) :
     have hg := ih.genNode (registerEarly ev st t.node) t.node
     dsimp only
     split
-    · exact ih.onePass _ _ _ _ _ ho
     · split
-      · rename_i evs b hr
-        apply ih.onePass
+      · exact okP_error _ _
+      · split
+        · exact ih.onePass _ _ _ _ _ ho
+        · exact ih.onePass _ _ _ _ _ ho
+    · rename_i evs b hr
+      split
+      · exact ih.onePass _ _ _ _ _ ho
+      · apply ih.onePass
         split
         · exact ho
         · exact pieces_snoc ho _ (hg.get hr)
-      · split
-        · exact okP_error _ _
-        · exact ih.onePass _ _ _ _ _ ho
 
 theorem retry_bal (st : St ρ) ts outs bb (ho : Pieces outs) :
     OkP (fun r => Pieces r.1) (Ctl.retry ev (fuel + 1) st ts outs bb).2 := by
